@@ -3,11 +3,12 @@
 Supported: a function body that is
   * a sequence of `let x = e;`, `let (a, b) = e;` and `if cond { return e; }` statements followed by an expression, or
   * `match *self { Path::A => e, Path::B => e }`
+(a procedure over one `&mut` accumulator - `return;`, final `*acc += e;` - becomes a function returning the accumulator)
 with expressions built from identifiers, numeric literals, field access (`.x` / `.y` of points, the fields of the
 structs declared by the caller, `.start` / `.end` of a range parameter), the point / vector methods `.square_length()`,
 `.to_vector()`, `.to_point()`, `.lerp(p, t)`, `.cross(v)`, calls of methods translated before (declared by the caller),
 the scalar constants and functions `S::ZERO … S::NINE`, `S::value(lit)`, `S::signum`, `S::abs`, parentheses, tuples,
-struct literals (with field shorthand), `Some(e)` / `None`, `!`, unary `-`, `* / % + -` (on scalars; `+ -` on points and
+struct literals (with field shorthand), `Some(e)` / `None`, `if c { a } else { b }`, `f32::min / max`, `!`, unary `-`, `* / % + -` (on scalars; `+ -` on points and
 vectors, `*` of a point or vector by a scalar), comparisons (`==` also on points) and `&& ||`, and enum
 paths (`Ordering::Greater`).  Floats become `Q` (comparisons through Qltb / Qle_bool / Qeq_bool of
 Model/Bezier.v), integers become `Z` (`%` is Z.rem, Rust's remainder).  Anything else raises
@@ -49,7 +50,8 @@ class P:
         # structs: gallina type name -> {"rust": [names], "ctor": constructor, "fields": [(rust field, accessor, type)]}
         # methods: (receiver type, method name) -> (gallina function, [argument types], result type)
         self.structs, self.methods = structs or {}, methods or {}
-        self.fresh = 0
+        self.subst = {}            # local names bound to untyped literals
+        self.acc = None            # name of the `&mut` accumulator parameter of a procedure, if any
 
     def peek(self, k=0):
         return self.t[self.i + k] if self.i + k < len(self.t) else ("eof", "")
@@ -123,6 +125,8 @@ class P:
         return a, b
 
     def lit(self, text, ty):
+        if "\u00ab" in text:           # an if-expression whose branches are untyped literals
+            return re.sub("\u00ab([^\u00bb]*)\u00bb", lambda m: self.lit(m.group(1), ty), text)
         if ty == "Z":
             if "." in text:
                 raise Unsupported("float literal in integer context")
@@ -296,6 +300,26 @@ class P:
                 if len(a) != 1:
                     raise Unsupported("arity of " + name)
                 return ("(%s %s)" % ({"S::signum": "qsignum", "S::abs": "Qabs"}[name], self.coerce(a[0], "Q")[0]), "Q")
+            if name == "if":
+                c = self.expr()
+                self.eat("op", "{")
+                a = self.expr()
+                self.eat("op", "}")
+                self.eat("id", "else")
+                self.eat("op", "{")
+                b = self.expr()
+                self.eat("op", "}")
+                if a[1] == "lit" and b[1] == "lit":
+                    mark = lambda t: t if "\u00ab" in t else "\u00ab%s\u00bb" % t
+                    return ("(if %s then %s else %s)" % (self.b(c), mark(a[0]), mark(b[0])), "lit")
+                a, b = self.unify(a, b)
+                return ("(if %s then %s else %s)" % (self.b(c), a[0], b[0]), a[1])
+            if name in ("f32::min", "f32::max", "f64::min", "f64::max", "S::min", "S::max") and self.peek() == ("op", "("):
+                self.eat()
+                a = self.args()
+                if len(a) != 2:
+                    raise Unsupported("arity of " + name)
+                return ("(%s %s %s)" % ("Qmin" if name.endswith("min") else "Qmax", self.coerce(a[0], "Q")[0], self.coerce(a[1], "Q")[0]), "Q")
             if name == "None":
                 return ("None", ("opt", None))
             if name == "Some" and self.peek() == ("op", "("):
@@ -324,6 +348,8 @@ class P:
                 if set(given) != {f[0] for f in fields}:
                     raise Unsupported("fields of " + name)
                 return ("(%s %s)" % (self.structs[st]["ctor"], " ".join(self.coerce(given[f[0]], f[2])[0] for f in fields)), st)
+            if name in self.subst:
+                return (self.subst[name], "lit")
             if name in self.env:
                 return (self.local(name), self.env[name])
             if name in self.enums:
@@ -368,7 +394,10 @@ class P:
                 c = self.expr()
                 self.eat("op", "{")
                 self.eat("id", "return")
-                e = self.expr()
+                if self.peek() == ("op", ";") and self.acc:
+                    e = (self.acc, self.env[self.acc])           # `return;` of a procedure: the accumulator as it is
+                else:
+                    e = self.expr()
                 self.eat("op", ";")
                 self.eat("op", "}")
                 stmts.append(("ret", self.b(c), e))
@@ -396,12 +425,25 @@ class P:
                     e = self.expr()
                     self.eat("op", ";")
                     if e[1] == "lit":
-                        raise Unsupported("let of an untyped literal")
+                        self.subst[n] = e[0]          # an untyped literal (or if of literals): inlined where it is used
+                        self.env.pop(n, None)
+                        continue
+                    self.subst.pop(n, None)
                     self.env[n] = e[1]
                     stmts.append(("let", self.local(n), e))
             else:
                 break
-        last = self.expr()
+        if self.acc and self.peek() == ("op", "*") and self.peek(1) == ("id", self.acc):
+            # the final `*acc += e;` of a procedure over a `&mut` accumulator
+            self.eat()
+            self.eat()
+            self.eat("op", "+")
+            self.eat("op", "=")
+            e = self.coerce(self.expr(), self.env[self.acc])
+            self.eat("op", ";")
+            last = ("(%s + %s)%s" % (self.acc, e[0], "%Z" if e[1] == "Z" else ""), e[1])
+        else:
+            last = self.expr()
         self.eat("op", "}")
         if self.peek()[0] != "eof":
             raise Unsupported("trailing tokens")
@@ -425,8 +467,11 @@ class P:
         raise Unsupported("return types differ: %s / %s" % (a, b))
 
 
-def translate(body_src, env, enums, structs=None, methods=None):
+def translate(body_src, env, enums, structs=None, methods=None, acc=None):
     """body_src: the function body including its braces; env: parameter name -> type;
-    enums: Rust path -> Gallina constructor.  Returns (gallina expression, type)."""
+    enums: Rust path -> Gallina constructor; acc: the `&mut` accumulator parameter of a procedure (its
+    `return;` yields the accumulator, its final `*acc += e;` the sum).  Returns (gallina expression, type)."""
     toks = tokenize(body_src)
-    return P(toks, env, enums, structs, methods).body()
+    p = P(toks, env, enums, structs, methods)
+    p.acc = acc
+    return p.body()
